@@ -24,6 +24,45 @@ def _setup_paths():
         if p not in sys.path:
             sys.path.insert(0, p)
     sys.setrecursionlimit(200000)
+    _maybe_cover()
+
+
+_COVER_SEEN = set()
+
+
+def _maybe_cover():
+    """VERIF_COVER=<dir>: record which functions of the real dassh sources are executed by a check (symbolically or
+    natively) - used by tools/coverage.sh to list the functions no check ever enters. Off by default."""
+    d = os.environ.get('VERIF_COVER')
+    if not d or getattr(sys, '_verif_cover_on', False):
+        return
+    sys._verif_cover_on = True
+    os.makedirs(d, exist_ok=True)
+    root = os.path.join(os.path.realpath(REPO), 'dassh') + os.sep
+
+    def prof(frame, event, arg):
+        if event != 'call':
+            return
+        co = frame.f_code
+        fn = co.co_filename
+        if not fn.startswith(root) and not fn.startswith('<'):
+            return
+        key = (fn, co.co_firstlineno, co.co_name)
+        if key in _COVER_SEEN:
+            return
+        _COVER_SEEN.add(key)
+        if fn.startswith('<'):
+            # code cut from the real source by pvc.loopcut is compiled under a name '<... of Qualified.name>'
+            if ' of ' not in fn:
+                return
+        try:
+            with open(os.path.join(d, f'{os.getpid()}.txt'), 'a') as f:
+                f.write(f'{fn}\t{co.co_firstlineno}\t{co.co_name}\n')
+        except OSError:
+            pass
+    sys.setprofile(prof)
+    import threading
+    threading.setprofile(prof)
 
 
 def _point_dump(pt):
